@@ -432,3 +432,23 @@ def c26(ctx):
                 "demands equal values, predicates (zero, diagonal, symmetric, lower, upper, real, square, Toeplitz) not "
                 "contradicted by the concrete matrix, correct sizes and trace")
     simple(ctx, "MC_C26", "Trace_C26", floor=0.5, shards=5)
+
+
+@plan("C17")
+def c17(ctx):
+    ctx.rule = ("TLC prints abstract syntax trees (depth <= 3 over identifiers, integers, floating-point literals, pi, "
+                "+ - * / ** unary minus, 15 function names) with the printer of module Syntax, which states the "
+                "conventional rules (precedence, associativity, where a unary sign may stand) in 32 styles (spaces, "
+                "redundant parentheses, ^ for **, leading zeros, implicit multiplication), including the classical "
+                "traps in every style; the parser's result must be the expression built directly from the tree")
+    simple(ctx, "MC_C17", "Trace_C17", floor=0.9)
+
+
+@plan("C16")
+def c16(ctx):
+    ctx.rule = ("TLC enumerates expressions of the parseable fragment (23 atoms: identifiers with digits and "
+                "underscores, integers, rationals, Gaussian numbers, floats, constants, infinities, nan; arithmetic, "
+                "negative and complex coefficients, nested powers, 25 functions, relationals, logic), commutative ones in "
+                "several operand orders; TLC validates that constructions giving equal objects print to the same string "
+                "and that parse(str(e)) is the same object as e (close in value when floats are involved)")
+    simple(ctx, "MC_C16", "Trace_C16", floor=0.5)
